@@ -149,6 +149,11 @@ impl StyleSheetTransformer {
         self.current_output_mut().append_token(token, src)
     }
 
+    fn append_token_with_name(&mut self, token: StepToken, _input: &mut StepParser, name: &str) {
+        self.current_output_mut()
+            .append_token_with_name(token, Some(name))
+    }
+
     fn append_token_space_preserved(
         &mut self,
         token: StepToken,
@@ -228,16 +233,21 @@ fn write_maybe_rpx_dimension(
             unit: "vw".into(),
         };
         let st = StepToken::wrap(t, next.position);
-        ss.append_token(
-            st,
-            input,
-            Some(Token::Dimension {
-                has_sign,
-                value,
-                unit: unit.clone(),
-                int_value,
-            }),
-        );
+        if next.src.is_empty() {
+            ss.append_token(
+                st,
+                input,
+                Some(Token::Dimension {
+                    has_sign,
+                    value,
+                    unit: unit.clone(),
+                    int_value,
+                }),
+            );
+        } else {
+            // the name is the original spelling (a re-serialized number would be rounded to 6 digits)
+            ss.append_token_with_name(st, input, next.src);
+        }
     } else {
         let token = Token::Dimension {
             has_sign,
